@@ -112,8 +112,9 @@ template<class T, bool PAIR> struct MRSys : vf::SysBase {
   std::unique_ptr<MultiRange<T>> A, B;
   MRModel mA, mB;
   int perObj() const { return 3 * n * n + 1; }
-  int nops() const { return PAIR ? 2 * perObj() + 3 : 3 * perObj(); }
-  MRSys(int u) : U(u), n(u + 1), A(new MultiRange<T>()), B(new MultiRange<T>()) {}
+  int nops() const { return PAIR ? 2 * perObj() + 3 : 3 * perObj() + 1; }   // single object: + self-assignment
+  bool warm = false;   // every read-only query is asked before every operation (a value cached by a query must not survive the next edit)
+  MRSys(int u, bool w = false) : U(u), n(u + 1), A(new MultiRange<T>()), B(new MultiRange<T>()), warm(w) {}
   std::string basename_(int k, const std::string& o) const {
     if (k == 3 * n * n) return o + ".clear()";
     int kind = k / (n * n), a = (k % (n * n)) / n, b = k % n;
@@ -126,6 +127,7 @@ template<class T, bool PAIR> struct MRSys : vf::SysBase {
       if (op < 2 * po) return basename_(op % po, op / po ? "B" : "A");
       switch (op - 2 * po) { case 0: return "B = copy-construct(A)"; case 1: return "B = A (assign)"; default: return "A = B (assign)"; }
     }
+    if (op == 3 * po) return "A = A (self-assignment)";
     const char* pre[] = {"", "S=copy-construct(A); ", "S={[0,1[,[2,3[}; S=A; "};
     return std::string(pre[op / po]) + basename_(op % po, "A") + (op / po ? "; check S; S.restrictTo(Range(0,1)); check A" : "");
   }
@@ -154,6 +156,7 @@ template<class T, bool PAIR> struct MRSys : vf::SysBase {
     if (m.toString() != ts + "}") c.fail("multirange|toString", ctx + " toString=" + m.toString());
   }
   void base(int k, MultiRange<T>& X, MRModel& M) {
+    if (warm) { volatile size_t sink = X.totalLength() + X.size() + (X.isEmpty() ? 1 : 0) + X.getBounds().size() + X.toString().size(); (void)sink; }
     if (k == 3 * n * n) { X.clear(); M.clear(); return; }
     int kind = k / (n * n), a = (k % (n * n)) / n, b = k % n;
     Range<T> r((T)a, (T)b);
@@ -174,6 +177,10 @@ template<class T, bool PAIR> struct MRSys : vf::SysBase {
       if (c.muted) return;
       audit("A", *A, mA, c, on); audit("B", *B, mB, c, on);
       for (auto* p : A->ranges_) for (auto* q : B->ranges_) if (p == q) c.fail("multirange|copy-shares-range-objects", on);
+    } else if (op == 3 * po) {
+      MultiRange<T>& self = *A; *A = self;   // an assignment like any other: the object still holds what the source holds
+      if (c.muted) return;
+      audit("A", *A, mA, c, on);
     } else {
       int variant = op / po;
       if (variant == 0 || c.muted) { base(op % po, *A, mA); if (c.muted) return; audit("A", *A, mA, c, on); }
@@ -202,11 +209,11 @@ template<class T> struct RSSys : vf::SysBase {
   std::unique_ptr<RangeSet<T>> A, B;
   std::vector<std::pair<int, int>> mA, mB;
   RSSys(int u) : U(u), n(u + 1), A(new RangeSet<T>()), B(new RangeSet<T>()) {}
-  int nops() const { return 3 * n * n + 1 + 3; }
+  int nops() const { return 3 * n * n + 1 + 4; }
   std::string opname(int op) const {
     if (op < 3 * n * n) { int kind = op / (n * n), a = (op % (n * n)) / n, b = op % n; const char* nm[] = {"addRange", "restrictTo", "filterWithin"};
       return std::string("A.") + nm[kind] + "(Range(" + str(a) + "," + str(b) + "))"; }
-    switch (op - 3 * n * n) { case 0: return "A.clear()"; case 1: return "B = copy-construct(A)"; case 2: return "B = A (assign)"; default: return "A = B (assign)"; }
+    switch (op - 3 * n * n) { case 0: return "A.clear()"; case 1: return "B = copy-construct(A)"; case 2: return "B = A (assign)"; case 3: return "A = B (assign)"; default: return "A = A (self-assignment)"; }
   }
   static std::string dump(const RangeSet<T>& m) { std::string r; for (auto* p : m.ranges_) r += "[" + str(p->begin()) + "," + str(p->end()) + "["; return r; }
   static std::string ms(const std::vector<std::pair<int, int>>& l) { std::string r; for (auto& p : l) r += "[" + str(p.first) + "," + str(p.second) + "["; return r; }
@@ -232,7 +239,8 @@ template<class T> struct RSSys : vf::SysBase {
       case 0: A->clear(); mA.clear(); break;
       case 1: B.reset(new RangeSet<T>(*A)); mB = mA; break;
       case 2: *B = *A; mB = mA; break;
-      default: *A = *B; mA = mB; break;
+      case 3: *A = *B; mA = mB; break;
+      default: { RangeSet<T>& self = *A; *A = self; break; }
     }
     if (c.muted) return;
     audit("A", *A, mA, c, on); audit("B", *B, mB, c, on);
@@ -245,6 +253,10 @@ template<class T> struct RSSys : vf::SysBase {
 template<class T> void mr(vf::Runner& R, int U, int depth) {
   MRSys<T, false> proto(U);
   R.explore(std::string("multirange:") + TN<T>::n() + ":U" + str(U), depth, proto.nops(), [U]() { return std::unique_ptr<MRSys<T, false>>(new MRSys<T, false>(U)); });
+}
+template<class T> void mrwarm(vf::Runner& R, int U, int depth) {
+  MRSys<T, false> proto(U, true);
+  R.explore(std::string("multirange:") + TN<T>::n() + ":U" + str(U) + ":every-query-asked-before-every-operation", depth, proto.nops(), [U]() { return std::unique_ptr<MRSys<T, false>>(new MRSys<T, false>(U, true)); });
 }
 template<class T> void mrpair(vf::Runner& R, int U, int depth) {
   MRSys<T, true> proto(U);
@@ -265,6 +277,7 @@ int main(int argc, char** argv) {
   mr<unsigned>(R, th ? 8 : 6, 64);
   mr<double>(R, th ? 8 : 6, 64);
   mrpair<int>(R, th ? 5 : 4, 64);
+  mrwarm<int>(R, th ? 8 : 6, 64);
   rset<int>(R, th ? 6 : 4, 3);
   rset<unsigned>(R, th ? 4 : 3, 3);
   rset<double>(R, th ? 4 : 3, 3);
